@@ -223,6 +223,16 @@ def expect_guards(ctx, fn, table, where=None):
     For each row there must be an `if` (anywhere in fn, or among `where`) whose test is propositionally equivalent to the formula and whose
     block starts with that statement. A guard whose block matches but whose test is not equivalent is reported with the falsifying assignment."""
     ifs = [s for s in (where if where is not None else ast.walk(fn.node)) if isinstance(s, ast.If)]
+    from .. import au as _au
+    _au.LIST_NAMES.clear()
+    _au.LIST_NAMES.update(_au.container_names(fn.node))
+    try:
+        _expect_guards(ctx, fn, table, ifs)
+    finally:
+        _au.LIST_NAMES.clear()
+
+
+def _expect_guards(ctx, fn, table, ifs):
     for formula, action, meaning in table:
         ctx.count(1, '%s: %s' % (fn.qual, formula))
         from ..normal import flatten_block
